@@ -50,6 +50,7 @@ class Snapshotter:
         self.saved = {}
         self.active = False
         self.kill_at: int | None = None  # really die at that boundary
+        self.boundary_keys: dict[int, str] = {}
 
     # ---- helpers -----------------------------------------------------------
     def under_root(self, path) -> bool:
@@ -88,6 +89,7 @@ class Snapshotter:
             for d, subs, _ in os.walk(self.root) for s in subs)
         h.update("|".join(dirs).encode())
         key = h.hexdigest()
+        self.boundary_keys[self.boundary] = key
         if key in self.states:
             self.states[key]["last_boundary"] = self.boundary
             return
